@@ -356,3 +356,19 @@ def add_targets(E, spec, pid):
                      "TOFUDatabase.verify/trust/get_host_info by the contracts of contracts/tofu_store.py over the durable table (proved against the SQLite model E9 in the same run for C03, under C12 otherwise)",
                      "parse_url by contract (C19): host/port of the connection are parse_url(url)'s"]
     return env
+
+
+def as_sub(pid, as_pid):
+    """sub-specification (own engine): GeminiClient._get_single / upload with the clauses tagged `as_pid`, for the run of `pid`
+    (e.g. C16's "the pin is verified on every hop": every hop is one _get_single call, and this is that call's C03 contract)"""
+    def build(E2):
+        from pyvc.runner import Spec
+        s2 = Spec(pid)
+        s2.targets = []
+        env, _ = client_proto.add_targets(E2, s2, as_pid)
+        s2.targets = [t for t in s2.targets if "client.protocol" not in t[0]]
+        E2._client_env = env
+        add_targets(E2, s2, as_pid)
+        s2.syntactic = []
+        return s2
+    return build
